@@ -241,7 +241,7 @@ pub fn cases(prop: &str, tier: &str, ctx: &mut Ctx, rng: &mut Rng) {
                 // a random base point of the switch cube, then flip each switch
                 let reps = if thorough { 4 } else { 2 };
                 for _ in 0..reps {
-                    let mut base = rand_settings(rng, reg, &SetCfg { derives: true, substitutes: false, switches: true, missing_paths: false });
+                    let mut base = rand_settings(rng, reg, &SetCfg { derives: true, substitutes: true, switches: true, missing_paths: false });
                     if rng.chance(1, 2) {
                         base.ops.push(OpSpec::DerivesAll(vec!["::codec::Encode".into()]));
                     }
